@@ -116,6 +116,19 @@ def _loop_append_to_comprehension(tree: ast.Module) -> None:
             while i + 1 < len(block):
                 a, l = block[i], block[i + 1]
                 i += 1
+                if isinstance(a, ast.Assign) and len(a.targets) == 1 and isinstance(a.targets[0], ast.Name) \
+                        and isinstance(a.value, ast.Dict) and not a.value.keys and isinstance(l, ast.For) and not l.orelse \
+                        and len(l.body) == 1 and isinstance(l.body[0], ast.Assign) and len(l.body[0].targets) == 1 \
+                        and isinstance(l.body[0].targets[0], ast.Subscript) and isinstance(l.body[0].targets[0].value, ast.Name) \
+                        and l.body[0].targets[0].value.id == a.targets[0].id:
+                    d_ = a.targets[0].id
+                    key_, val_ = l.body[0].targets[0].slice, l.body[0].value
+                    if not any(isinstance(n, ast.Name) and n.id == d_ for part in (key_, val_, l.iter) for n in ast.walk(part)):
+                        comp = ast.DictComp(key=key_, value=val_, generators=[ast.comprehension(target=l.target, iter=l.iter, ifs=[], is_async=0)])
+                        new_ = ast.Assign(targets=[ast.Name(id=d_, ctx=ast.Store())], value=comp, lineno=a.lineno, col_offset=a.col_offset)
+                        ast.copy_location(comp, l)
+                        block[i - 1:i + 1] = [ast.fix_missing_locations(new_)]
+                    continue
                 if not (isinstance(a, ast.Assign) and len(a.targets) == 1 and isinstance(a.targets[0], ast.Name)
                         and isinstance(a.value, ast.List) and not a.value.elts):
                     continue
@@ -747,7 +760,36 @@ def _index_loops_to_iteration(tree: ast.Module, only_plain_python: bool = True) 
                     heads.append(st)
                 else:
                     break
-            if not heads or not any(ast.dump(h.value.value) == first_seq for h in heads):
+            if not heads:
+                # no element statement: `A[i]` is used in place.  Give the element a name when every use of the index is such a
+                # subscript of A or a plain read of i
+                seq_expr = it.args[0].args[0]
+                uses = [n for st in loop.body for n in ast.walk(st) if isinstance(n, ast.Subscript) and isinstance(n.ctx, ast.Load)
+                        and ast.dump(n.value) == first_seq and isinstance(n.slice, ast.Name) and n.slice.id == i]
+                stores_to_seq = any(isinstance(n, ast.Subscript) and isinstance(n.ctx, ast.Store) and ast.dump(n.value) == first_seq
+                                    for st in loop.body for n in ast.walk(st))
+                if not uses or stores_to_seq:
+                    continue
+                root = seq_expr
+                while isinstance(root, ast.Attribute):
+                    root = root.value
+                ename = f"{ast.unparse(seq_expr).replace('.', '_')}__elem"
+                taken = {n.id for n in ast.walk(fn) if isinstance(n, ast.Name)}
+                rebound_ = {n.id for st in loop.body for n in ast.walk(st) if isinstance(n, ast.Name) and isinstance(n.ctx, ast.Store)}
+                if ename in taken or root.id in rebound_ or i in rebound_:
+                    continue
+
+                class _U(ast.NodeTransformer):
+                    def visit_Subscript(self, n):
+                        if any(n is u for u in uses):
+                            return ast.copy_location(ast.Name(id=ename, ctx=ast.Load()), n)
+                        return self.generic_visit(n)
+                loop.body = [_U().visit(st) for st in loop.body]
+                loop.target = ast.Tuple(elts=[ast.Name(id=i, ctx=ast.Store()), ast.Name(id=ename, ctx=ast.Store())], ctx=ast.Store())
+                loop.iter = ast.Call(func=ast.Name(id="enumerate", ctx=ast.Load()), args=[seq_expr], keywords=[])
+                ast.fix_missing_locations(loop)
+                continue
+            if not any(ast.dump(h.value.value) == first_seq for h in heads):
                 continue
             rest = loop.body[len(heads):]
             if not rest:
@@ -803,12 +845,12 @@ def normalise(tree: ast.Module, modname: str) -> List[str]:
         return []
     notes = inline_new_helpers(tree, modname)
     _IfExpAssign().visit(tree)
+    _index_loops_to_iteration(tree)
     _loop_append_to_comprehension(tree)
     _CellAugAssign().visit(tree)
     _result_variable_to_returns(tree)
     _indexed_result_to_unpacking(tree)
     _ConstantOnTheRight().visit(tree)
     _MergeNestedIfs().visit(tree)
-    _index_loops_to_iteration(tree)
     ast.fix_missing_locations(tree)
     return notes
